@@ -147,6 +147,49 @@ def wrapper_cases(chk, n_cases):
     return reqs, impls
 
 
+def torch_cases(chk, n_cases):
+    """TorchWrapper around a recording link function (tensor in, tensor out): same canonical form, batch and key-order clauses"""
+    try:
+        import torch
+    except ImportError:
+        return
+    from ixai.utils.wrappers import TorchWrapper
+    rng = chk.rng
+    for i in range(n_cases):
+        d = rng.randint(1, 3)
+        kind = rng.choice(["n", "n1", "nc"])
+        rec = Recorder(rng, d, kind, "f32")
+        names = ["a", "b", "c"][:d]
+
+        def link(t, rec=rec):
+            return torch.tensor(np.asarray(rec(t.numpy())), dtype=torch.float32)
+        w = TorchWrapper(link, feature_names=names)
+        xs = []
+        for _ in range(rng.choice([1, 2, 4])):
+            items = [(k, float(rng.randint(-4, 4))) for k in names + ["extra"]]
+            rng.shuffle(items)
+            xs.append(dict(items))
+        desc = {"torch": True, "d": d, "out": kind, "batch": len(xs)}
+        chk.case(dict(desc, i=i), nontrivial=True, sample=False)
+        chk.stat("torch_cases")
+        try:
+            many = w(xs)
+            singles = [w(x) for x in xs]
+            for x, one, m in zip(xs, singles, many):
+                raw = rec(np.asarray([[x[k] for k in names]]))
+                want = expected(raw[0] if kind != "n" else raw)
+                if canon_out(one) != want or canon_out(m) != want:
+                    chk.violation("torch-form", f"TorchWrapper, link output kind {kind}: single={one!r} batch row={m!r}, canonical form of the row {np.asarray(raw).tolist()} is {want}", desc)
+                    return
+            arr = rec.inputs[0]
+            if list(arr[0]) != [xs[0][k] for k in names]:
+                chk.violation("torch-feature-selection", f"TorchWrapper(feature_names={names}): the link function received {arr.tolist()} for input {xs[0]}", desc)
+                return
+        except Exception as ex:
+            chk.violation("torch-exception", f"TorchWrapper {desc}: raised {core.err_kind(ex)}: {ex}", desc)
+            return
+
+
 def river_cases(chk, n_cases):
     from ixai.utils.wrappers import RiverWrapper
     rng = chk.rng
@@ -167,8 +210,11 @@ def river_cases(chk, n_cases):
         ids = explain.Ids()
         got = []
         try:
-            for t in range(len(outs_raw)):
-                got.append(w({"f": t}))
+            if i % 3 == 0:
+                got = list(w([{"f": t} for t in range(len(outs_raw))]))      # list input: the list of canonical dicts, in order
+            else:
+                for t in range(len(outs_raw)):
+                    got.append(w({"f": t}))
         except Exception as ex:
             chk.violation("river-exception", f"RiverWrapper on predictions {outs_raw!r}: raised {core.err_kind(ex)}: {ex}", {"stream": [repr(o) for o in outs_raw]})
             continue
@@ -370,14 +416,17 @@ def run(tier="quick", seed=0, replay=None):
         return 1
     core.lean_stage(chk, "C14")
     from harness import cover
+    from harness import fingerprint
+    fingerprint.direct(chk, ['ixai/utils/wrappers/base.py', 'ixai/utils/wrappers/sklearn.py', 'ixai/utils/wrappers/river.py', 'ixai/utils/wrappers/torch.py', 'ixai/utils/validators/model.py'])
     _cv = cover.Cover(['ixai/utils/wrappers/base.py', 'ixai/utils/wrappers/sklearn.py', 'ixai/utils/wrappers/river.py', 'ixai/utils/wrappers/torch.py', 'ixai/utils/validators/model.py'])
     _cv.__enter__()
     quick = tier == "quick"
     reqs, impls = [], []
-    for fn, n in ((wrapper_cases, 150 if quick else 1500), (river_cases, 40 if quick else 400)):
+    for fn, n in ((wrapper_cases, chk.count(150, 1500)), (river_cases, chk.count(40, 400))):
         r, i = fn(chk, n)
         reqs += r
         impls += i
+    torch_cases(chk, chk.count(25, 250))
     real_models(chk)
     r, i = dispatch_cases(chk)
     reqs += r
